@@ -207,7 +207,7 @@ class DiffXWriter(object):
                                   mimetype=mimetype)
 
     def write_meta(self, metadata, encoding=None,
-                   meta_format=MetaFormat.JSON):
+                   meta_format=MetaFormat.JSON, line_endings=None):
         """Write a new meta section for DiffX, a change, or a file.
 
         If called before :py:meth:`new_change`, this will write a top-level
@@ -234,6 +234,13 @@ class DiffXWriter(object):
                 The format for this metadata section.
 
                 Valid values are in :py:class:`~pydiffx.options.MetaFormat`.
+
+            line_endings (unicode, optional):
+                The line endings to declare for the metadata. This can be
+                "dos" or "unix".
+
+                If not provided, the option is left out of the header (the
+                generated JSON always uses UNIX line endings).
 
         Raises:
             pydiffx.errors.DiffXContentError:
@@ -262,15 +269,23 @@ class DiffXWriter(object):
         #       important at all for JSON metadata, and isn't a helpful
         #       parser aid. This may need to be revisited in the future if
         #       a different metadata format is ever provided.
+        content = json.dumps(metadata,
+                             indent=4,
+                             separators=(',', ': '),
+                             sort_keys=True)
+
+        if line_endings == LineEndings.DOS:
+            # Newlines inside of JSON strings are always escaped, so these
+            # are only the ones separating the lines of the document.
+            content = content.replace('\n', '\r\n')
+
         self._new_content_section(
             section_name='meta',
-            content=json.dumps(metadata,
-                               indent=4,
-                               separators=(',', ': '),
-                               sort_keys=True),
+            content=content,
             encoding=encoding,
             format=meta_format,
-            write_line_endings_option=False)
+            line_endings=line_endings,
+            write_line_endings_option=line_endings is not None)
 
     def write_diff(self, content, diff_type=None, encoding=None,
                    line_endings=None):
